@@ -184,7 +184,10 @@ func genAggRace(t *rapid.T) RaceM {
 		if rapid.Bool().Draw(t, "sameSecStack") {
 			r.Secs[i].Frames = cloneFrames(r.Secs[0].Frames)
 			r.Secs[i].Finished = r.Secs[0].Finished
-			if len(r.Secs[i].Frames) > 1 && rapid.Bool().Draw(t, "deeperCreatorDiffers") {
+			if oneIn(t, 4, "creatorDepthDiffers") {
+				// the same go statement reached through one more caller
+				r.Secs[i].Frames = append(r.Secs[i].Frames, FrameM{Pkg: "main", Name: "outer", File: "/src/outer.go", Line: 3, PCOff: 1})
+			} else if len(r.Secs[i].Frames) > 1 && rapid.Bool().Draw(t, "deeperCreatorDiffers") {
 				// same go statement, reached through a different caller
 				r.Secs[i].Frames[len(r.Secs[i].Frames)-1].Line += 7
 			}
